@@ -19,6 +19,15 @@ from vlib.common import hexs, InfraError
 from checks import enc_lib as E
 
 LEVEL = "model_checking"
+
+import time as _time
+_t0 = [_time.time()]
+
+
+def T(what):
+    now = _time.time()
+    common.log("  stage %-28s %.1fs" % (what, now - _t0[0]))
+    _t0[0] = now
 ALL_STREAMS = list(range(1, 16))
 
 
@@ -43,7 +52,9 @@ def run(chk, tier, replay):
         "INT32 DELTA streams whose stored widths exceed 32 are still parsed by the specification reader (values reduced modulo 2^32): weakest reading",
         "bitunpack_32 is given whole 8-value groups of input (its documented unit)",
     ]
+    _t0[0] = _time.time()
     E.selfcheck(chk, tier)
+    T('selfcheck')
 
     jobs = [("seq-bin", dict(module="MC_EncRefine", constants_text=E.refine_cfg(1, [0, 1], 15 if thorough else 11, "fill", True), workers=3, timeout=2400)),
             ("hist", dict(module="MC_EncHist", constants_text=E.hist_cfg("pos", 2 if thorough else 1, 8, "consume", True, ALL_STREAMS), workers=3, timeout=2400))]
@@ -51,10 +62,12 @@ def run(chk, tier, replay):
         jobs.append(("cases-" + fam, dict(module="MC_EncCases", workers=3, timeout=2400,
                                           constants_text=E.cfg_text({"Families": E.tla_set([fam]), "Thorough": "TRUE" if thorough else "FALSE"}))))
     for fam in ("hyb", "delta", "str", "dict"):
-        jobs.append(("alt-" + fam, dict(module="MC_EncAlt", workers=5, timeout=2400,
-                                        constants_text=E.cfg_text({"Families": E.tla_set([fam]), "Thorough": "TRUE" if thorough else "FALSE"}))))
-    res = E.run_many(jobs, parallel=5)
+        jobs.insert(0, ("alt-" + fam, dict(module="MC_EncAlt", workers=8 if fam == "delta" else 4, timeout=2400,
+                                           constants_text=E.cfg_text({"Families": E.tla_set([fam]), "Thorough": "TRUE" if thorough else "FALSE"}))))
+    res = E.run_many(jobs, parallel=6)
+    T('tlc generation')
     for name, r in res.items():
+        common.log('    job %-14s %.1fs %d cases' % (name, r.wall, len(r.cases)))
         if r.error or r.rc != 0:
             raise InfraError("TLC job %s failed rc=%s\n%s" % (name, r.rc, r.out[-2500:]))
         chk.add_tlc(r)
@@ -69,6 +82,7 @@ def run(chk, tier, replay):
         lines += E.roundtrip_lines(cid, c)
         owner[cid] = c
     hres, faults, _ = common.run_harness_leaks(binary, lines, leak_every=512)
+    T('harness a (%d lines)' % len(lines))
     events, ev_owner = [], {}
     for cid, c in owner.items():
         _, evs, _ = E.check_roundtrip(cid, c, hres)
@@ -76,6 +90,7 @@ def run(chk, tier, replay):
             events.append(e)
             ev_owner[e["id"]] = (cid, c)
     verdicts, tr = E.trace_validate(events)
+    T('trace validation (%d events)' % len(events))
     chk.add_tlc(tr)
     chk.cov["traces_validated_against_impl"] += len(verdicts)
     fam_a = {}
@@ -151,12 +166,23 @@ def run(chk, tier, replay):
         if c["kind"] == "hyb":
             olines.append("%sO rle_rt %d %s" % (cid, c["bw"], E.csv(E.hyb_values(c))))
     bres, bfaults, _ = common.run_harness_leaks(binary, blines + olines, leak_every=512)
+    T('harness b (%d lines)' % len(blines + olines))
     fam_b = {}
     other_geom_rejected = 0
 
+    by_case = {}
+    for ln in blines:
+        by_case.setdefault(ln.split(" ", 1)[0].rstrip("SLPABFD"), []).append(ln)
+    seen_sig = set()
+
     def viol(sig, what, cid, c):
+        # full replay material for the first occurrence of a signature, a stub afterwards
+        if sig in seen_sig:
+            chk.violation(sig, what[:200], cid)
+            return
+        seen_sig.add(sig)
         rep = {"case": {k: (v if not isinstance(v, list) or len(v) < 600 else v[:600]) for k, v in c.items()},
-               "lines": [ln for ln in blines if ln.split(" ", 1)[0].rstrip("SLPABFD") == cid][:6]}
+               "lines": by_case.get(cid, [])[:6]}
         chk.violation(sig, what, rep)
 
     for cid, c in bown.items():
@@ -287,7 +313,9 @@ def run(chk, tier, replay):
         s = streams[c["sid"]]
         ops = [o["op"] if o["op"] in ("G", "H") else "%s%d" % (o["op"], o["k"]) for o in c["ops"]] + ["B%d" % (len(c["drain"]) + 2)]
         hl.append("s%d rle_hist %d %s %s" % (i, s["bw"], hexs(s["bytes"]), " ".join(ops)))
+    T('compare b')
     hr, hf, _ = common.run_harness_leaks(binary, hl, leak_every=512)
+    T('harness hist (%d lines)' % len(hl))
     nh = bad = 0
     for i, c in enumerate(hist_cases):
         got = hr.get("s%d" % i)
